@@ -65,6 +65,13 @@ CHECKS.append(check(
     "deterministic simulation: I/O-delivery schedule simulator + reference encoders as the model",
     "DESIGN.md section 3 C, section 5 C07"))
 
+CHECKS.append(check(
+    "C20", "envsim", "exploration",
+    "The compiler (cmd/wuffs, cmd/wuffs-c and everything they link) is built from the working tree twice: as is, and with every range-over-map (found by go/types: 9 sites today) and every (*os.File).Readdir result rewritten onto a seeded permutation runtime injected with go build -overlay. One run = one whole `wuffs gen std/...` by the rewritten tools under a drawn permutation seed, GOMAXPROCS, scratch-root path, working directory and unrelated environment variables; oracle: the sha256 of every generated artefact (gen/c/*.c, gen/wuffs/**, the release file) equals the reference produced by the un-rewritten tools. One run in six checks instead that the reference release equals the committed release/c/wuffs-unsupported-snapshot.c, or that lang/check/gen.go regenerates the committed lang/check/data.go.",
+    "Sampling of permutation seeds and environments. Assumes map iteration and directory enumeration are the compiler's only order-nondeterminism sources (it starts no goroutines; checked: none of the 9 maps is keyed by pointers, so every permutation is reproducible). A sensitivity probe showed both directions: dropping listDir's file-name sort is caught at run 0; weakening a sort whose result never reaches the output is, correctly, not reported (seeded/C20-s1-equivalent).",
+    "deterministic simulation: seeded map-iteration and directory-enumeration order under the real compiler (source rewrite at check time), differential against an un-rewritten build",
+    "DESIGN.md section 3 E, section 5 C20"))
+
 NA_REASONS = {
  "C06": "pure function of two big.Int interval pairs: no stream, state, schedule, fault or history exists for a simulator to control (DESIGN.md section 7)",
  "C10": "static property of an object file (sections, symbols) plus constness of pure methods: decided by inspecting a binary, not by simulating executions (DESIGN.md section 7)",
@@ -99,6 +106,7 @@ def main():
             "add_only": True,
         },
         "engines": [
+            {"name": "envsim", "path": "/verif/engines/envsim", "serves_properties": ["C20"], "kind_free_text": "the real compiler under seeded map-iteration / directory-enumeration order (rewrite/maprange.go + engines/envsim/rt as a virtual package), environment, cwd and GOMAXPROCS; whole `wuffs gen std/...` runs compared by artefact hash"},
             {"name": "csim", "path": "/verif/engines/csim", "serves_properties": ["C03", "C05", "C07"], "kind_free_text": "I/O-delivery schedule simulator: a Go-side producer/consumer drives, call by call, a C driver child (/verif/csim/driver.c) linked against C that `wuffs gen` produces from the working tree at check time; sanitizer and -O2 builds, cached by content hash"},
             {"name": "gosim", "path": "/verif/engines/gosim", "serves_properties": ["C14"], "kind_free_text": "seeded goroutine scheduler (simrt) under the real lib/rac concurrent reader, whose channel constructs are rewritten at check time by /verif/rewrite and injected with go build -overlay"},
             {"name": "disksim", "path": "/verif/engines/disksim", "serves_properties": ["C13", "C15"], "kind_free_text": "simulated storage (fault-injecting io.Writer/TempFile, op-counting ReadSeeker) under the real lib/rac writer and readers"},
